@@ -135,6 +135,19 @@ GEN = {
                 rule="point clouds whose intensity/colour attributes take every data type (single/double open/bounded, integer, scaled integer of widths 0..64, degenerate) x 9 limit classes (absent, complete same type, complete mixed, partial via XML line removal, equal, reversed, extreme, non-finite, complete other type) x sorted value ladders x 4 settings of the two normalisation switches; non-trivial = (type class, limit class, switch) cell in which delivered values were checked; distinct = number of such distinct cells",
                 distinct=lambda r: len([k for k in r.cover if k.startswith("cell:")]), evaluations=lambda r: r.stats.get("clouds", 0),
                 assumptions=["expected value = clamp((v-min)/(max-min)) in f64 with halved operands, tolerance 2 ulp(f32) + 2e-7", "when limits are complete but of mixed/other type either candidate range is accepted; the invariants ([0,1], no NaN, monotone) are always required", "a reader that refuses unusable limits (reversed, non-finite) when the iterator is created is not a C13 matter"]),
+    "C08": dict(workload="fuzz", extra=[], quick=(400000, 60), thorough=(12000000, 1200), both=True, abort_prop="C08",
+                rule="structure-aware mutants (36 operators: XML numbers/attributes/types/structure incl. NaN, inf, extreme integers, huge and empty prototypes, entity expansion, deep nesting, bad UTF-8; file-header, section-header, packet-header, stream-length and blob-header fields set to hostile values; payload bit flips; splices; ignored-packet chains; all pages re-sealed with the harness CRC; plus unsealed flips, truncations, extensions, tiny inputs; 25% stacked twice) of 14 bundled test files and 12 generated files, each fed to validate_crc, raw_xml, E57Reader::new, all getters, raw iterator, simple iterator (all 64 option vectors for the first two seeds, 4 otherwise), descriptor and hostile blobs; every call under catch_unwind + panic hook in a checked-arithmetic build; shard aborts are attributed to the journaled case; non-trivial = mutated input executed; distinct = distinct input byte strings (FNV-64)",
+                distinct=lambda r: len(r.nums.get("input_identity", ())), evaluations=lambda r: r.stats.get("inputs", 0),
+                extra_cov=lambda r: {"inputs_opened": r.stats.get("inputs_opened", 0), "inputs_reached_packet_decoding": r.stats.get("inputs_reached_packet_decoding", 0), "simple_iterations_with_points": r.stats.get("inputs_reached_simple_points", 0),
+                                     "calls_monitored": r.stats.get("calls_monitored", 0) + r.stats.get("iterator_steps_monitored", 0), "distinct_error_classes_seen": len(r.nums.get("error_class", ())), "panics": sum(v for k, v in r.sigcounts.items() if k.startswith("C08/panic")),
+                                     "per_operator_inputs": {k[9:]: v for k, v in r.cover.items() if k.startswith("operator:")}},
+                assumptions=["allocation-failure aborts belong to C09 (the allocator cap reports itself before aborting)", "iterators are driven to the first Err/None or to a yield cap of 20000 (raw) / 3000 (simple) items"]),
+    "C09": dict(workload="fuzz", extra=[], quick=(400000, 60), thorough=(12000000, 1200), both=True, abort_prop="C09",
+                rule="same mutated inputs as C08; every public call (open, each single next() of both iterators, each blob extraction) runs under a counting global allocator (peak live bytes per call, hard cap 1.5 GiB -> abort attributed to the case), M-DEV read/byte counters reset per call and a yield counter; budgets: peak <= 256*|input| + 64 MiB, device bytes <= 64*|input| + 16 MiB, device reads <= |input|/4 + 4096, Ok items <= recordCount; a 60 s+ watchdog per shard re-runs the journaled case alone before calling it non-terminating; non-trivial = mutated input executed; distinct = distinct input byte strings",
+                distinct=lambda r: len(r.nums.get("input_identity", ())), evaluations=lambda r: r.stats.get("inputs", 0),
+                extra_cov=lambda r: {"calls_monitored": r.stats.get("calls_monitored", 0) + r.stats.get("iterator_steps_monitored", 0), "max_peak_bytes_in_one_call": r.stats.get("max_peak_bytes_per_call", 0), "max_peak_over_input_size": r.stats.get("max_peak_over_input_x1000", 0) / 1000.0,
+                                     "max_device_reads_in_one_call": r.stats.get("max_device_reads_per_call", 0), "max_device_bytes_in_one_call": r.stats.get("max_device_read_bytes_per_call", 0), "items_yielded": r.stats.get("raw_items_yielded", 0), "slow_cases_over_2s": r.stats.get("slow_cases_over_2s", 0), "max_case_millis": r.stats.get("max_case_millis", 0)},
+                assumptions=["liveness is restated as bounded progress per call; wall clock is never a verdict (watchdog hits are inconclusive unless the case still does not return alone within 300 s)", "budget constants are generous on purpose: roxmltree needs ~50-100 bytes per XML token and a 64 KiB packet of 1-bit values expands 128x"]),
     "C11": dict(workload="pages", extra=["--all"], quick=(0, 60), thorough=(0, 900), both=False,
                 quick_extra=["--depth", "4", "--random", "12000"], thorough_extra=["--depth", "5", "--random", "200000"],
                 rule="page layer driven through the e57_verif hook beside a logical-stream model: ALL histories of the given depth (quick 4, thorough 5) over a 29-symbol alphabet {write_all(n) for 12 sizes around page boundaries, raw write, physical_seek to 12 position classes incl. rejected ones, flush, align, physical_position, physical_size} followed by drop, then random histories of 20..120 ops with patch-back patterns; device compared with the model at every flush point; read-side sequences {seek_physical, read(n), read_exact(n), align} on intact images and images with one damaged page; non-trivial = history with >=1 flush point checked; distinct = distinct (abstract state, op kind, abstract state) transitions observed",
